@@ -22,6 +22,8 @@ def run(chk, replay=None):
     dev_fast = bool(os.environ.get("VERIF_DEV_NOMODELS"))  # builder's shortcut for mutation runs
     # ---------------- real code: tables, grids of real runs, constructed instances, splits
     trace = os.path.join(w, "trace.ndjson")
+    if replay and str(replay["event"].get("op", "")).endswith("_batch"):
+        return rho_model(chk, w, replay)          # the recorded case belongs to the Pollard rho stage
     core.run_driver(["c16", "--seed", chk.seed, "--tier", chk.tier], trace, timeout=3000)
     evs = core.read_ndjson(trace)
     rows = [dict(e, poly=bool(e.get("poly"))) for e in evs if e["op"] == "row"]
@@ -91,3 +93,45 @@ def run(chk, replay=None):
                         "chebyshev_modn is not defined at exponent 0 (never called with it)",
                         "hook events s2_* report the exponents pushed / multiples built at push time; for the chirp-z path the giant multiples are "
                         "derived from the logged number of kept convolution outputs"]
+    if not replay:
+        rho_model(chk, w, None)
+
+
+def rho_model(chk, w, replay):
+    """Pollard rho (Brent): spec/rho/RhoFn.tla is an EXACT model of rho64 for moduli below 2^15 (Montgomery form included).
+    (M) the loop as a state machine over all odd composites of a range and all increments 1..9: results are genuine splits,
+    Brent's bookkeeping, agreement with the pure function; the hazard question "does rho() ever fail" (factor_impl's
+    Algo::Rho branch would fall through); (V) real calls in batches: Strict = genuine split, Drift = the model's split."""
+    thorough = chk.tier == "thorough"
+    dev_fast = bool(os.environ.get("VERIF_DEV_NOMODELS"))
+    if not dev_fast and not replay:
+        chk.add_mc(core.model_check("rho/MC_PollardRho.tla", "MC_Rho_all_thorough.cfg" if thorough else "MC_Rho_all.cfg", workers=4, timeout=1500))
+        # non-vacuity: a run can fail although one of its differences showed a factor (TLC must find one)
+        r = core.model_check("rho/MC_PollardRho.tla", "MC_Rho_missed.cfg", workers=2, timeout=600, expect_error=True)
+        chk.add_mc(r, invariants_expected_to_hold=False)
+        if "NeverMissed" not in r["violated"]:
+            raise core.ToolError("PollardRho: the non-vacuity configuration no longer fails")
+        hi = 32767 if thorough else 6000
+        r = core.model_check("rho/RhoHazard.tla", "RhoHazard.cfg", workers=1, timeout=1500, env={"LO": "9", "HI": str(hi)})
+        chk.add_mc(r)
+        fails = core.tuples(r["out"], "RHOFAIL")
+        if not fails:
+            raise core.ToolError("RhoHazard printed nothing")
+        chk.cov["rho_model"] = {"exact_below": 32768, "hazard_range": [9, hi], "inputs_on_which_rho_fails_for_all_c": fails[0][3]}
+    tr = os.path.join(w, "rho.ndjson")
+    core.run_driver(["rho", "--seed", chk.seed, "--tier", chk.tier], tr, timeout=900)
+    if replay:
+        core.replay_filter(tr, replay)
+    res = core.validate_trace("rho/RhoTrace.tla", "RhoTrace.cfg", tr, timeout=1500, tag="rho",
+                              weight=lambda e: len(e.get("ns", [])) * (3 if e["op"] == "semi_batch" else 1))
+    chk.add_tv(res)
+    evs = core.read_ndjson(tr)
+    ops = {}
+    calls = 0
+    for e in evs:
+        ops[e["op"]] = ops.get(e["op"], 0) + 1
+        calls += len(e.get("ns", []))
+    if not replay and (calls < 1000 or len(ops) < 3):
+        raise core.ToolError("rho stage: too few calls (%d) or ops (%r)" % (calls, ops))
+    chk.cov.setdefault("rho_model", {}).update({"batches": ops, "real_calls_compared_with_model": calls,
+                                                "splits_returned": sum(1 for e in evs for r_ in e.get("rs", []) if r_)})
